@@ -942,6 +942,7 @@ static void do_start(int h)
   char flags[128] = "";
   int argvnull = 0, usewd = 0, rfile = 0, rpath = 0, want_ident = 0, nofile = 0, hlow = 0;
   const char *inchild = NULL;
+  int forkexec = 0;
   int selffile[3] = { -1, -1, -1 };  // f<stream>std=N: the caller's own stdout (1) / stderr (2) FILE as the redirect FILE
   int rootrel = 0;  // rootrel=1: the caller's working directory is "/" and the program is named relative to it
   long bigarg = 0;  // bigarg=N: one argument of N bytes (beyond MAX_ARG_STRLEN the kernel refuses the exec with E2BIG)
@@ -984,7 +985,7 @@ static void do_start(int h)
     } else if ((v = kv(t, "dl"))) o.deadline = atoi(v);
     else if ((v = kv(t, "input"))) inputsz = atol(v);
     else if ((v = kv(t, "nb"))) o.nonblocking = atoi(v);
-    else if ((v = kv(t, "fork"))) o.fork = atoi(v);
+    else if ((v = kv(t, "fork"))) { o.fork = atoi(v) != 0; forkexec = atoi(v) == 2; }   // 2: the child side execs the helper itself
     else if ((v = kv(t, "term"))) snprintf(c->term, sizeof c->term, "%s", v);
     else if ((v = kv(t, "skill"))) snprintf(c->skill, sizeof c->skill, "%s", v);
     else if ((v = kv(t, "ignpipe"))) strcat(flags, " ignpipe");
@@ -1217,6 +1218,12 @@ static void do_start(int h)
     W->inchild_done = d == NULL ? 1 : 2;
     char sp[800];
     snprintf(sp, sizeof sp, "%s/s", c->dir);
+    if (forkexec && !strcmp(prog, "vc")) {
+      // a fork-mode child that runs a program of its own: whatever start left in this process (the exit
+      // handle above all) has to survive the exec for the parent's view of the child to stay true
+      execv(argv[0], (char *const *) argv);
+      _exit(111);
+    }
     vchild_run(sp, flags, "forkchild", forksnap ? forksnap : "", 0, NULL);
     _exit(0);
   }
